@@ -96,10 +96,36 @@ def hsl_to_rgb_exact(h: F, s: F, l: F):
     return tuple(255 * c for c in (hue(h + F(1, 3)), hue(h), hue(h - F(1, 3))))
 
 
-def parse(s: str):
-    """-> (r, g, b, alpha) exact (Fractions; channels on the 0..255 scale, clamped as CSS prescribes)."""
+class OutOfRange(CssReject):
+    """valid CSS, but a component lies outside its nominal range (CSS clamps it; the properties only speak of in-range values)"""
+
+
+def parse(s: str, inrange_only: bool = False, plain_decimal_only: bool = False):
+    """-> (r, g, b, alpha) exact (Fractions; channels on the 0..255 scale, clamped as CSS prescribes).
+    inrange_only: raise OutOfRange instead of clamping; plain_decimal_only: reject numbers written with an exponent."""
     if not isinstance(s, str):
         raise CssReject("not a string")
+    if plain_decimal_only and re.search(r"\d[eE][+-]?\d", s):
+        raise CssReject("exponent notation")
+    if inrange_only:
+        r, g, b, a = parse(s)
+        t = s.strip(_WS).lower()
+        m = re.fullmatch(r"(rgba?|hsla?)\(([^()]*)\)", t, re.S)
+        if m:
+            args = [x.strip(_WS) for x in m.group(2).split(",")]
+            fn = m.group(1)
+            if len(args) == 4 and not (0 <= _num(args[3]) <= 1):
+                raise OutOfRange("alpha")
+            if fn.startswith("rgb"):
+                for x in args[:3]:
+                    v = _num(x[:-1]) if x.endswith("%") else _num(x)
+                    if not (0 <= v <= (100 if x.endswith("%") else 255)):
+                        raise OutOfRange("rgb component")
+            else:
+                for x in args[1:3]:
+                    if not (0 <= _num(x[:-1]) <= 100):
+                        raise OutOfRange("hsl percentage")
+        return (r, g, b, a)
     t = s.strip(_WS)
     low = t.lower()
     if low in KEYWORD_RGB:
